@@ -114,7 +114,16 @@ impl<'a> IExec<'a> {
                     Recipient::GasService => xdr_of(&saddr(&self.h[H_GAS])),
                     Recipient::Garbage => {
                         ctx.count("probe.inbound_undecodable_recipient");
-                        if *src % 2 == 0 { vec![1, 2, 3, 4, 5] } else { xdr_of(&su32(7)) }
+                        // bytes that are not the XDR of an address, some of them built from the
+                        // system's own addresses in another form (strkey text, raw 32 bytes)
+                        match *src % 6 {
+                            0 => vec![1, 2, 3, 4, 5],
+                            1 => xdr_of(&su32(7)),
+                            2 => strkey_text(&self.h[2 + (*src as usize / 6) % 4]),
+                            3 => strkey_text(&crate::host::account_twin(&self.sim.env, &self.h[2])),
+                            4 => addr_bytes(&self.h[2]).to_vec(),
+                            _ => vec![],
+                        }
                     }
                 };
                 let db: Vec<u8> = data.map(|i| self.cfg.payloads[i as usize % self.cfg.payloads.len()].clone()).unwrap_or_default();
@@ -132,7 +141,8 @@ impl<'a> IExec<'a> {
                     InId::CanonicalOf(tk) => {
                         ctx.count("probe.remote_deploy_for_a_canonical_id");
                         let t = *tk as usize % self.toks.len();
-                        its_token_id(&its_canonical_salt(&self.cfg.chain_name, &saddr(&self.tok_addr[t])))
+                        let a = self.nontoken_addr(*tk).unwrap_or_else(|| self.tok_addr[t].clone());
+                        its_token_id(&its_canonical_salt(&self.cfg.chain_name, &saddr(&a)))
                     }
                     InId::LocalOf { caller, salt } => {
                         ctx.count("probe.remote_deploy_for_a_local_deployers_id");
@@ -156,11 +166,13 @@ impl<'a> IExec<'a> {
                     }
                     InMinter::NonAddress(k) => {
                         ctx.count("probe.inbound_minter_is_xdr_of_a_non_address");
-                        match k % 4 {
+                        match k % 6 {
                             0 => xdr_of(&su32(7)),
                             1 => xdr_of(&sstr("minter")),
                             2 => xdr_of(&sbytes(&[1u8; 32])),
-                            _ => xdr_of(&svec(vec![saddr(&self.h[2])])),
+                            3 => xdr_of(&svec(vec![saddr(&self.h[2])])),
+                            4 => strkey_text(&self.h[2]),
+                            _ => strkey_text(&crate::host::account_twin(&self.sim.env, &self.h[3])),
                         }
                     }
                 };
@@ -391,7 +403,9 @@ impl<'a> IExec<'a> {
                                     reasons.push("token-refuses-this-receiver");
                                 }
                                 if let Some(to) = to {
-                                    if self.bal(t, to).checked_add(a).is_none() {
+                                    // (a release of custody to the custodian itself is a transfer from the service
+                                    // to the service: nothing is added to its balance)
+                                    if (native || to != H_ITS) && self.bal(t, to).checked_add(a).is_none() {
                                         // a credit that cannot be represented cannot be "exactly the announced amount"
                                         ctx.count("probe.inbound_credit_would_overflow");
                                         reasons.push("credit-would-overflow");
@@ -416,7 +430,7 @@ impl<'a> IExec<'a> {
                         }
                     }
                     AMsg::Deploy { id, name, symbol, decimals, minter } => {
-                        if self.m.registry.contains_key(id) {
+                        if self.m.registry.contains_key(id) || self.m.nontoken.contains_key(id) {
                             reasons.push("token-id-already-registered");
                         }
                         if name.is_empty() || symbol.is_empty() {
@@ -615,4 +629,12 @@ pub fn dev_name(d: &Dev) -> &'static str {
         Dev::InnerDirtyWord(_) => "inner_dirty_word",
         Dev::InnerDirtyPadding => "inner_dirty_padding",
     }
+}
+
+/// the 56 characters of an address's strkey form, as bytes
+fn strkey_text(a: &soroban_sdk::Address) -> Vec<u8> {
+    let t = a.to_string();
+    let mut b = vec![0u8; t.len() as usize];
+    t.copy_into_slice(&mut b);
+    b
 }
